@@ -680,8 +680,12 @@ def _run_join(rp, cex):
                         colmap[nid] = t2[kv["n"]]
                         nid += 1
             at = "join"
-            jm = dict(v="join", i=cur[1], j=cur[2], how=cex["how"], suffix="_r",
-                      on=[dict(k="fn", op="eq", a=[dict(k="col", id=S_col_id(sl, 0)), dict(k="col", id=S_col_id(sr, 0))])])
+            ra = [ci for ci, (n, _) in enumerate(rp.B.srcs[sr]["cols"]) if n == "a"][0]
+            if cex["how"] == "union":
+                jm = dict(v="union", i=cur[1], j=cur[2], distinct=bool(cex.get("distinct")))
+            else:
+                jm = dict(v="join", i=cur[1], j=cur[2], how=cex["how"], suffix="_r",
+                          on=[dict(k="fn", op="eq", a=[dict(k="col", id=S_col_id(sl, 0)), dict(k="col", id=S_col_id(sr, ra))])])
             moves.append(jm)
             joined = R.apply_move(jm, heap, colmap)
             if cex.get("how2"):
@@ -721,6 +725,55 @@ def _cross_replay_join(rp, cex):
     return (None if r is None else "Polars vs SQLite: " + r[1][:300]), moves
 
 
+def _join_decisions(args):
+    """worker: executes join / union scenarios and compares the catalogue's decision with the code's"""
+    seed, chunk = args
+    from . import compare as CMP
+    from .replay import Replayer
+
+    rp = Replayer(seed)
+    agree = conservative = permissive_ok = other = 0
+    reasons = {}
+    failures = []
+    for dc in chunk:
+        res, moves = _run_join(rp, dc)
+        model_refuses = bool(dc["needL"] or dc["needR"])
+        reasons[dc["needL"] or dc["needR"] or "accepted"] = reasons.get(dc["needL"] or dc["needR"] or "accepted", 0) + 1
+        s = res["sqlite"]
+        code_refuses = isinstance(s, tuple) and s[0] == "SubqueryError" and s[1] == "join"
+        if isinstance(s, tuple) and not code_refuses:
+            if s[0] == "SubqueryError":      # a preparatory step was refused: outside this comparison
+                other += 1
+                continue
+            failures.append(dict(clause="export-error", backend="sqlite", step=len(moves) - 1, tainted=False, src=[dc["left"], dc["right"]], srcidx=0,
+                                 exc=s[0], detail=f"join / union scenario raised {s[0]} at {s[1]} on SQLite", moves=moves, heap_obs=[], beh=dc))
+            continue
+        if model_refuses == code_refuses:
+            agree += 1
+            continue
+        if code_refuses:
+            conservative += 1
+            continue
+        # the code accepts what the transcription refuses: it must then be right
+        pl = res["polars"]
+        why = None
+        if isinstance(pl, tuple):
+            why = f"Polars raised {pl[0]}"
+        elif sorted(pl.columns) != sorted(s.columns):
+            why = f"columns differ: {pl.columns} vs {s.columns}"
+        else:
+            r = CMP.compare_rows(CMP.frame_rows(pl.select(sorted(pl.columns))), CMP.frame_rows(s.select(sorted(s.columns))), None, None)
+            why = None if r is None else "Polars vs SQLite: " + r[1][:300]
+        if why is None:
+            permissive_ok += 1
+        else:
+            failures.append(dict(clause="rows", backend="sqlite", step=len(moves) - 1, tainted=False, src=[dc["left"], dc["right"]], srcidx=0,
+                                 detail=f"the catalogue (spec) requires a subquery here ({dc['needL'] or dc['needR']}) but the code accepted "
+                                        "the join / union and the result is wrong: " + why,
+                                 moves=moves, heap_obs=[], beh=dc))
+    return agree, conservative, permissive_ok, other, reasons, failures
+
+
 def phase_flatjoin(ctx, phase):
     """design level, joins: the merged SELECT of two accumulators vs the sequential meaning (MC_SqlFlatJoin.tla);
     second run: every reachable pair of side accumulators x join kind with the catalogue's decision, compared with the code's"""
@@ -729,10 +782,10 @@ def phase_flatjoin(ctx, phase):
     rp = Replayer(ctx.seed)
     found, decided = [], []
     states = distinct = 0
-    for (ls, rs) in phase.get("pairs", [(1, 2), (6, 2)]):
+    for (ls, rs) in phase.get("pairs", [(1, 2), (6, 2), (1, 3)]):
         for emit_all in (False, True):
             d = tlc.prepare(f"{ctx.prop}-flatjoin-{ls}-{rs}-{int(emit_all)}-{os.getpid()}", ctx.seed)
-            tlc.write_model(d, "MC_SqlFlatJoin", dict(MaxPre=phase.get("pre", 2), LeftSrc=ls, RightSrc=rs, ThirdSrc=phase.get("third", 3), EmitAll=emit_all), {}, view="View")
+            tlc.write_model(d, "MC_SqlFlatJoin", dict(MaxPre=phase.get("pre", 2), LeftSrc=ls, RightSrc=rs, ThirdSrc=phase.get("third", 2 if rs == 3 else 3), EmitAll=emit_all), {}, view="View")
             res = tlc.run(d, workers=8, timeout=phase.get("timeout", 600), on_json=(decided if emit_all else found).append)
             states += res["states"]
             distinct += res["distinct"]
@@ -749,51 +802,24 @@ def phase_flatjoin(ctx, phase):
                                      detail="TLC (join accumulator): the catalogue accepts this join but the merged SELECT differs from the "
                                             "sequential meaning; confirmed on the real code: " + why,
                                      moves=moves, heap_obs=[], beh=cex))
-    # decisions: the transcribed Join rules against the code's
-    from . import compare as CMP
+    # decisions: the transcribed Join / Union rules against the code's
+    uniq = {}
+    for dc in decided:
+        uniq.setdefault(json.dumps(dc, sort_keys=True), dc)
+    seen = list(uniq.values())
+    n = 16
+    futs = [ctx.get_pool().submit(_join_decisions, (ctx.seed, seen[w::n])) for w in range(n)]
     agree = conservative = permissive_ok = other = 0
     reasons = {}
-    seen = set()
-    for dc in decided:
-        key = json.dumps(dc, sort_keys=True)
-        if key in seen:
-            continue
-        seen.add(key)
-        res, moves = _run_join(rp, dc)
-        model_refuses = bool(dc["needL"] or dc["needR"])
-        reasons[dc["needL"] or dc["needR"] or "accepted"] = reasons.get(dc["needL"] or dc["needR"] or "accepted", 0) + 1
-        s = res["sqlite"]
-        code_refuses = isinstance(s, tuple) and s[0] == "SubqueryError" and s[1] == "join"
-        if isinstance(s, tuple) and not code_refuses:
-            if s[0] == "SubqueryError":      # a preparatory step was refused: outside this comparison
-                other += 1
-                continue
-            ctx.failures.append(dict(clause="export-error", backend="sqlite", step=len(moves) - 1, tainted=False, src=[dc["left"], dc["right"]], srcidx=0,
-                                     exc=s[0], detail=f"join scenario raised {s[0]} at {s[1]} on SQLite", moves=moves, heap_obs=[], beh=dc))
-            continue
-        if model_refuses == code_refuses:
-            agree += 1
-            continue
-        if code_refuses:
-            conservative += 1
-            continue
-        # the code accepts what the transcription refuses: it must then be right
-        pl = res["polars"]
-        why = None
-        if isinstance(pl, tuple):
-            why = f"Polars raised {pl[0]}"
-        elif list(pl.columns) != list(s.columns):
-            why = f"columns differ: {pl.columns} vs {s.columns}"
-        else:
-            r = CMP.compare_rows(CMP.frame_rows(pl), CMP.frame_rows(s), None, None)
-            why = None if r is None else "Polars vs SQLite: " + r[1][:300]
-        if why is None:
-            permissive_ok += 1
-        else:
-            ctx.failures.append(dict(clause="rows", backend="sqlite", step=len(moves) - 1, tainted=False, src=[dc["left"], dc["right"]], srcidx=0,
-                                     detail=f"the catalogue (spec) requires a subquery here ({dc['needL'] or dc['needR']}) but the code accepted "
-                                            "the join and the result is wrong: " + why,
-                                     moves=moves, heap_obs=[], beh=dc))
+    for fu in futs:
+        a, c, pk, o, rs, fl = fu.result()
+        agree += a
+        conservative += c
+        permissive_ok += pk
+        other += o
+        for k, v in rs.items():
+            reasons[k] = reasons.get(k, 0) + v
+        ctx.failures.extend(fl)
     ctx.extra["sqlflat_join"] = dict(counterexamples_predicted=len(found), confirmed_on_code=confirmed, drift=len(found) - confirmed,
                                      decisions=len(seen), decisions_agree=agree, code_more_conservative=conservative,
                                      code_more_permissive_but_correct=permissive_ok, pre_step_refused=other, catalogue_decisions=reasons)
